@@ -546,6 +546,8 @@ def structures(draw, max_res=40, min_res=2, allow_ball=True, allow_hetero=True, 
             hnum = 900
             prev = None
             prev_anchor = None
+            last_placed = None
+            placed_ids = set()
             for _ in range(nhet):
                 if prev is not None and (ligand_copies or draw(st.integers(0, 3)) < (
                         2 if prev[2].startswith("lig:") else 1)):
@@ -582,7 +584,10 @@ def structures(draw, max_res=40, min_res=2, allow_ball=True, allow_hetero=True, 
                     nrm = math.sqrt(_dot(d, d))
                     origin = (anchor.x + int(d[0] * dist / nrm), anchor.y + int(d[1] * dist / nrm),
                               anchor.z + int(d[2] * dist / nrm))
-                    cand = hetero_residue(resn, mol, hchain, hnum - 1 if same_number else hnum, rot, origin)
+                    num = hnum
+                    if same_number and last_placed is not None and (hchain, last_placed[1]) not in placed_ids:
+                        num = last_placed[1]
+                    cand = hetero_residue(resn, mol, hchain, num, rot, origin)
                     if all(pdbio.COORD_MIN < v < pdbio.COORD_MAX for a in cand for v in a.xyz) and \
                             not any(grid.near(a, 2600) for a in cand):
                         placed = cand
@@ -595,6 +600,8 @@ def structures(draw, max_res=40, min_res=2, allow_ball=True, allow_hetero=True, 
                                                                for r in het_tail) else "copy:other-chain")
                     het_tail.append(placed)
                     labels.append(kindl)
+                    last_placed = (placed[0].chain, placed[0].resnum)
+                    placed_ids.add(last_placed)
                     hnum += 1
     if het_tail and draw(st.sampled_from([False, False, True])):
         entries = [a for r in het_tail for a in r] + entries
@@ -735,3 +742,34 @@ def buried_structures(draw, whole=True, pair_kind=None, with_hetero=True):
             seen.add(a.xyz)
     pdbio.renumber_serials(entries)
     return Structure(entries, labels, {"protein": name, "mutated": done, "centre_burial": burial})
+
+
+@st.composite
+def bridged_chains(draw, dist=(2000, 2499)):
+    """Two three-residue chains cut from a corpus protein, joined by an S-S contact of a drawn length (milli-A) along a
+    drawn direction (coordinate axes included), translated by a drawn offset.  Returns (entries, info)."""
+    chains = protein_chains("1FTJ-Chain-A")
+    start = draw(st.integers(5, 200))
+    seg = chains[0][1][start:start + 6]
+    ress = [[a.copy() for a in r] for r in seg]
+    ress[1] = mutate_residue(ress[1], "CYS", draw(st.integers(0, 10)))
+    ress[4] = mutate_residue(ress[4], "CYS", draw(st.integers(0, 10)))
+    sg1 = next(a for a in ress[1] if a.aname == "SG")
+    sg2 = next(a for a in ress[4] if a.aname == "SG")
+    d = DIRECTIONS[draw(st.integers(0, len(DIRECTIONS) - 1))]
+    length = draw(st.integers(dist[0], dist[1]))
+    nrm = math.sqrt(_dot(d, d))
+    sg2.x, sg2.y, sg2.z = (sg1.x + int(d[0] * length / nrm), sg1.y + int(d[1] * length / nrm),
+                           sg1.z + int(d[2] * length / nrm))
+    oxt = make_oxt(ress[2])
+    if oxt is not None:
+        ress[2].append(oxt)
+    for r in ress[3:]:
+        for a in r:
+            a.chain = "B"
+    ents = [a for r in ress[:3] for a in r] + [ter_line(ress[2][-1])] + [a for r in ress[3:] for a in r]
+    off = (draw(st.integers(0, 5020)), draw(st.integers(0, 5020)), draw(st.integers(0, 5020)))
+    ents = pdbio.move(ents, pdbio.ROTATIONS[0], off)
+    pdbio.renumber_serials(ents)
+    ents.append(ter_line(pdbio.atoms_of(ents)[-1]))
+    return ents, {"direction": d, "length_mA": length, "offset_mA": off}
